@@ -127,7 +127,12 @@ class DirHandler(BaseHandler):
         if time.time() - statval[stat.ST_MTIME] < self.cachetime:
             try:
                 with self.vfs.open(self.cachename, "rb") as fp:
-                    self.fileentries = pickle.load(fp)
+                    cachedfor, self.fileentries = pickle.load(fp)
+                if cachedfor != self.selector:
+                    # Written for another selector of the same directory (a
+                    # symlink, a renamed or moved directory): its entries
+                    # carry that selector, so they are not ours.
+                    raise ValueError("cache written for " + repr(cachedfor))
             except Exception:
                 # A truncated or corrupt cache file (interrupted writer, full
                 # disk, concurrent writer) is treated as if it was absent.
@@ -147,6 +152,6 @@ class DirHandler(BaseHandler):
             return
         try:
             with self.vfs.open(self.cachename, "wb") as fp:
-                pickle.dump(self.fileentries, fp, 1)
+                pickle.dump((self.selector, self.fileentries), fp, 1)
         except IOError:
             pass
